@@ -30,6 +30,8 @@ type File struct {
 	// EscDollar: the documents are serialised with every "$" spelled as an
 	// escape sequence of the format (same documents, no "$" in the bytes)
 	EscDollar bool `json:"escaped_dollars,omitempty"`
+	// CRLF: lines end in "\r\n" (a file written on another platform)
+	CRLF bool `json:"crlf_line_endings,omitempty"`
 }
 
 // Link is a symlink.
@@ -61,6 +63,10 @@ func (f *File) Bytes() (string, bool) {
 	if ok && f.EscDollar {
 		s = gen.EscapeDollars(Ext(f.Path), s)
 	}
+	if ok && f.CRLF {
+		// (the serialisers quote every string, so a raw "\n" is always a line break)
+		s = strings.ReplaceAll(s, "\n", "\r\n")
+	}
 	return s, ok
 }
 
@@ -68,7 +74,7 @@ func (f *File) Bytes() (string, bool) {
 func (w *World) Clone() *World {
 	n := &World{Dirs: append([]string{}, w.Dirs...), Links: append([]Link{}, w.Links...)}
 	for _, f := range w.Files {
-		nf := File{Path: f.Path, EscDollar: f.EscDollar}
+		nf := File{Path: f.Path, EscDollar: f.EscDollar, CRLF: f.CRLF}
 		if f.Raw != nil {
 			s := *f.Raw
 			nf.Raw = &s
